@@ -1,6 +1,83 @@
-import BroodModel.Inv
+/-
+  C05 — No safe call sequence corrupts or misuses memory in the column store.
+
+  The L1 model performs every access the real code performs unchecked (`get_unchecked`,
+  `unwrap_unchecked`, raw-parts reconstruction of a column with the shared length, reading a column
+  as the component type the bit walk says it has) as a *checked* access: a violated precondition
+  is the outcome `Out.ub`.  The theorems say that outcome is unreachable.
+
+  Modelled rather than verified: allocation and release of the buffers themselves (sizes,
+  alignments, double free) — those are decided on the real code by the tracking allocator of the
+  correspondence check; the model says which *indices, columns, types and lengths* are used.
+-/
+import BroodModel.Lemmas.NoUB
+
 namespace Brood
-theorem C05_init_inv (n : Nat) (res : List Val) : Inv (World.init n res) := by
-  constructor <;> simp [World.init, Alloc.empty]
+
+/-- **No unchecked access with a violated precondition, in any history.**  Starting from the empty
+world, every sequence of public single-world operations whose arguments the type system admits
+(`Op.wt`) runs to completion — no out-of-range slot, row or column index, no missing table, no
+column read at another component's type, no column whose length differs from the shared length —
+and ends in a world satisfying the structural invariant. -/
+theorem C05_no_ub (n : Nat) (res : List Val) (ops : List Op) (hwt : ∀ op ∈ ops, op.wt n) :
+    ∃ w, run (World.init n res) ops = .ok w ∧ Inv w := by
+  obtain ⟨w, h, hi, _⟩ := run_total (inv_init n res) ops hwt
+  exact ⟨w, h, hi⟩
+
+/-- The same from any world satisfying the invariant (e.g. a clone or a deserialized world). -/
+theorem C05_no_ub_from {w : World} (hi : Inv w) (ops : List Op) (hwt : ∀ op ∈ ops, op.wt w.n) :
+    ∀ e, run w ops ≠ .ub e := by
+  obtain ⟨w', h, _⟩ := run_total hi ops hwt
+  intro e he; rw [h] at he; cases he
+
+/-- **A stored value is never reinterpreted**: in every reachable world, column `k` of a table
+holds only values of the `k`-th component of the table's component set, and exactly as many as
+the table has rows. -/
+theorem C05_columns_typed (n : Nat) (res : List Val) (ops : List Op) {w : World}
+    (h : run (World.init n res) ops = .ok w) {a : Arch} (ha : a ∈ w.archs) {k : Nat} {col : List Val}
+    {ty : Nat} (hc : a.cols[k]? = some col) (hty : a.mask.comps[k]? = some ty) :
+    col.length = a.ids.length ∧ ∀ v ∈ col, v.ty = ty :=
+  ((run_inv (inv_init n res) ops h).archOk ha).cols_ok k col ty hc hty
+
+/-- **Every access of a live entity is in bounds**: the location of a live identifier names an
+existing table, a row below the shared length, and every column of that table has that row. -/
+theorem C05_live_in_bounds (n : Nat) (res : List Val) (ops : List Op) {w : World}
+    (h : run (World.init n res) ops = .ok w) {id : Ident} {l : Loc} (hg : w.alloc.get id = some l) :
+    ∃ a, w.findArch l.arch = some a ∧ l.row < a.ids.length ∧ a.cols.length = a.mask.count ∧
+      ∀ c ∈ a.cols, l.row < c.length := by
+  have hi := run_inv (inv_init n res) ops h
+  obtain ⟨a, la, hh⟩ := hi.liveAt hg
+  have hr : l.row < a.ids.length := (List.getElem?_eq_some_iff.mp la.row).1
+  refine ⟨a, by rw [← hh]; exact la.find, hr, la.ok.cols_len, ?_⟩
+  intro c hc
+  rw [la.ok.cols_all_len c hc]; exact hr
+
+/-- The cell a typed access of component `c` reaches holds a value of type `c`. -/
+theorem C05_cell_typed {w : World} (hi : Inv w) {id : Ident} {l : Loc} (hg : w.alloc.get id = some l)
+    {a : Arch} (hf : w.findArch l.arch = some a) {c : Nat} (hc : a.mask.has c = true) :
+    ∃ col v, a.cols[colIndex a.mask c]? = some col ∧ col[l.row]? = some v ∧ v.ty = c := by
+  obtain ⟨a', la, hh⟩ := hi.liveAt hg
+  have : a' = a := by
+    have h1 := la.find; rw [hh, hf] at h1; cases h1; rfl
+  subst this
+  exact cell_ok la.ok hc (List.getElem?_eq_some_iff.mp la.row).1
+
+/-- Non-vacuity: an admissible history that creates, reshapes, overwrites, removes and clears. -/
+example :
+    let ops : List Op :=
+      [.insert [1, 0] [⟨1, 11⟩, ⟨0, 10⟩], .extend [2] [[⟨2, 20⟩], [⟨2, 21⟩]],
+       .add ⟨0, 0⟩ 2 ⟨2, 22⟩, .del ⟨0, 0⟩ 1, .write ⟨1, 0⟩ 2 ⟨2, 23⟩, .remove ⟨2, 0⟩,
+       .insert [0] [⟨0, 12⟩], .shrink, .reserve [1]]
+    (∀ op ∈ ops, op.wt 3) ∧ (run (World.init 3 []) ops).isOk = true := by
+  refine ⟨?_, by decide⟩
+  intro op hop
+  simp only [List.mem_cons, List.mem_nil_iff, or_false] at hop
+  rcases hop with rfl | rfl | rfl | rfl | rfl | rfl | rfl | rfl | rfl <;> simp [Op.wt, World.shapeOk]
+
 end Brood
-#print axioms Brood.C05_init_inv
+
+#print axioms Brood.C05_no_ub
+#print axioms Brood.C05_no_ub_from
+#print axioms Brood.C05_columns_typed
+#print axioms Brood.C05_live_in_bounds
+#print axioms Brood.C05_cell_typed
